@@ -366,6 +366,21 @@ func c03Stats(cases []string) map[string]int {
 			if fs := c03DecRows(f[8]); len(fs) > 1 {
 				st["reducec.files>1"]++
 			}
+			for _, a := range UnHexListS(f[6]) {
+				ord := false
+				for _, e := range c03OrdExprs {
+					if strings.HasSuffix(a, "="+e) {
+						ord = true
+					}
+				}
+				if ord {
+					st["reducec.orderSensitive"]++
+					if fs := c03DecRows(f[8]); len(fs) > 1 {
+						st["reducec.orderSensitive.files>1"]++
+					}
+					break
+				}
+			}
 		case "tbl":
 			c03TblStats(f, st)
 		case "sbv":
